@@ -174,6 +174,19 @@ def witnesses():
     w.append(("known-F29", mk([ic(1, "k", 0, "l0", ["."]), ic(0, "r", 1, "l1", ["."], 0)],
                               C(0, {}, [C(2, {}, [C(1, {}, [L(0, "a")])]), C(2, {}, [C(1, {}, [L(0, "a")])]), L(1, "a")]),
                               lt="ssd"), "always", "ig", "pool"))
+    # regression cases (no finding: implementation, model and Spec must agree)
+    w.append(("reg-sibling-keyref", mk([ic(1, "k", 0, "l0", ["."]), ic(1, "r", 1, "l1", ["."], 0)],
+                                       C(0, {}, [C(1, {}, [L(0, "a")]), C(1, {}, [L(0, "b"), L(1, "a")])]), lt="sss"),
+              "always", "ig", "pool"))
+    w.append(("reg-sibling-keyref-depth", mk([ic(1, "k", 0, "l0", ["."]), ic(1, "r", 1, "l1", ["."], 0)],
+                                             C(0, {}, [C(2, {}, [C(1, {}, [L(0, "a")])]), C(1, {}, [L(0, "b"), L(1, "a")])]),
+                                             lt="sss"), "always", "ig", "pool"))
+    w.append(("reg-integer-key-int-ref", mk([ic(0, "k", 0, "c1/l0", ["."]), ic(0, "r", 1, "c2/l1", ["."], 0)],
+                                            C(0, {}, [C(1, {}, [L(0, "1"), L(0, "2")]), C(2, {}, [L(1, "+1"), L(1, "02")])]),
+                                            lt="ins"), "always", "ig", "pool"))
+    w.append(("reg-unique-mixed-depth", mk([ic(0, "u", 0, "c1", ["*"])],
+                                           C(0, {}, [C(1, {}, [L(0, "1")]), C(1, {}, [L(1, "+1")]), C(1, {}, [L(2, "01")])]),
+                                           lt="iJb"), "always", "sg", "loc"))
     w.append(("known-F32", mk([ic(0, "u", 0, ".//l0", ["."])], C(0, {}, [C(0, {}, [L(0, "a")]), L(0, "b")])),
               "always", "ig", "pool"))
     w.append(("known-F30", mk([ic(0, "u", 0, "c1", ["@*"])], C(0, {}, [C(1, {0: "a", 1: "1"})])), "always", "ig", "pool"))
@@ -188,13 +201,21 @@ def gen_cases(ctx):
         r = rng.random()
         size = rng.choice([6, 10, 14, 20, 30])
         desc = rng.random() < 0.5
-        if r < 0.8:
+        if r < 0.15:
+            case = G.gen_case_siblings(rng)
+            kind = "sib"
+        elif r < 0.8:
             case = G.gen_case2(rng, size=size, allow_desc=desc)
             kind = "rec"
         else:
             case = G.gen_case(rng, size=size, allow_desc=desc)
             kind = "wild"
         kind += "-desc" if has_desc(case) else "-child"
+        tys = set(case["ltypes"]) | set(case["atypes"])
+        if len(tys & set("EIlnJhbuNCTA")) > 0:
+            kind += "+derived"
+        if any(len(n) > 4 and n[4] for n, _, _ in walk(case["tree"])):
+            kind += "+xsitype"
         out.append((kind, case, "always", "ig", "pool"))
         # the same pair under another configuration (SGXMLScanner is only driven through schema locations)
         scheme = rng.choice(["always", "auto", "auto"])
@@ -313,6 +334,9 @@ def run(ctx):
     def bump(k):
         stats[k] = stats.get(k, 0) + 1
 
+    # the Val_Auto reporting gate (F13, fixed by 55dbcfa) counts as regressed only when its literal witness fails
+    f13_regressed = any(kind == "known-F13" and i != m and i == mo
+                        for (kind, case, req), i, m, mo in zip(reqs, impl, model, modold))
     for (kind, case, req), i, m, mo, s, f, cl in zip(reqs, impl, model, modold, spec, mfix, classes):
         a = req.split()
         scheme = a[1]
@@ -330,7 +354,7 @@ def run(ctx):
         if i != "r -" or sk:
             ctx.distinct(req)
         if i != m:
-            if scheme == "auto" and i == mo and i != m:
+            if scheme == "auto" and i == mo and i != m and f13_regressed:
                 nviol += 1
                 if nviol <= 3:
                     ctx.violation("F13", {"request": req, "kind": kind, "impl": i, "model": m, "spec": s,
